@@ -258,6 +258,14 @@ def main():
         else:
             ok_names, problems, axioms = audit(prop, [module] + extra, theorems)
             broken += problems
+    kernel_recheck = None
+    if tier == "thorough" and module and not broken:
+        # the toolchain's independent re-checker replays the compiled declarations of the property's modules
+        # (and everything they import) through the kernel once more
+        rc, out = sh(["lake", "env", "leanchecker", module] + extra, cwd=LEAN, timeout=3000)
+        kernel_recheck = {"modules": [module] + extra, "exit": rc}
+        if rc != 0:
+            broken.append(f"leanchecker rejects {[module] + extra}: {out.strip()[-400:]}")
     forb = grep_forbidden(module)
     for em in extra:
         forb += [h for h in grep_forbidden(em) if h not in forb]
@@ -354,8 +362,8 @@ def main():
         "explanation": P.get("explanation", ""),
         "trusted_base": P.get("trusted_base", []) + [
             "Lean 4.33 kernel; axioms per theorem: " + json.dumps(axioms, sort_keys=True),
-            "correspondence check harness/ (Python) + Driver.lean; translator harness/extract_consts.py",
-        ],
+            "correspondence check harness/ (Python) + Driver.lean; translators harness/extract_consts.py, harness/translate_fns.py (+ Generated/Prelude.lean)",
+        ] + ([f"leanchecker re-check of {kernel_recheck['modules']}: exit {kernel_recheck['exit']}"] if kernel_recheck else []),
         "obligations": max(n_obl, 1),
         "discharged": n_ok if n_obl else 0,
         "checker_cmd": f"cd lean && lake build {module or 'driver'} Robotools.Proofs.GenOK && lake env lean .audit/Audit_{prop}.lean",
